@@ -21,6 +21,7 @@ type QueryInput struct {
 	ScanIndexForward          bool
 	Scan                      bool
 	started                   bool
+	startIndexKey             string
 }
 
 // Table struct to mock a dynamodb table
@@ -282,9 +283,35 @@ func prepareSearch(input *QueryInput, index *index, k, startKey string) (string,
 
 	if pk == startKey {
 		input.started = true
+
+		return "", false
+	}
+
+	// the item named by the exclusive start key may have been deleted in the
+	// meantime: resume from the first entry positioned after it
+	if positionedAfter(input, index, k, pk, startKey) {
+		input.started = true
+
+		return pk, true
 	}
 
 	return "", false
+}
+
+func positionedAfter(input *QueryInput, index *index, k, pk, startKey string) bool {
+	if index == nil {
+		return (pk > startKey) == input.ScanIndexForward
+	}
+
+	if input.startIndexKey == "" {
+		return false
+	}
+
+	if k != input.startIndexKey {
+		return (k > input.startIndexKey) == input.ScanIndexForward
+	}
+
+	return (pk > startKey) == input.ScanIndexForward
 }
 
 func (t *Table) getMatchedItemAndCount(input *QueryInput, pk, startKey string) (map[string]*types.Item, interpreter.ExpressionType, bool) {
@@ -334,6 +361,10 @@ func (t *Table) SearchData(input QueryInput) ([]map[string]*types.Item, map[stri
 
 	startKey := t.parseStartKey(t.KeySchema, exclusiveStartKey)
 	input.started = startKey == ""
+
+	if index != nil && startKey != "" {
+		input.startIndexKey = t.parseStartKey(index.keySchema, exclusiveStartKey)
+	}
 	last := map[string]*types.Item{}
 	sortedKeysSize := int64(len(sortedKeys))
 
